@@ -464,6 +464,28 @@ Proof.
   - unfold dims in *; simpl. rewrite dims_set_same_name; [exact Hn | reflexivity].
 Qed.
 
+Theorem set_axis_wf a i k labs n :
+  WF a -> i < List.length (axes a) -> List.length labs = alen (nth i (axes a) dax0) ->
+  n <> "" -> ~ In n (remove_nth i (dims a)) ->
+  WF (mkarr (set_nth i {| aname := n; akind := k; alab := labs; aattrs := aattrs (nth i (axes a) dax0);
+                          amem := amem (nth i (axes a) dax0) |} (axes a)) (vals a) (attrs a)).
+Proof.
+  intros [[Hs Hd] [Hn He]] Hi Hl Hne Hfresh. split; [split; simpl; [|exact Hd]|].
+  - rewrite <- Hs. rewrite map_set_nth. unfold alen at 1; simpl. rewrite Hl. apply set_nth_alen_self.
+  - unfold dims in *; simpl. rewrite map_set_nth. simpl. split; [apply NoDup_set_nth; assumption|].
+    intros Hin. apply In_set_nth in Hin. destruct Hin as [E|Hin]; [apply Hne; symmetry; exact E | apply He; eapply In_remove_nth; exact Hin].
+Qed.
+
+Theorem set_axis_same_wf a i k labs :
+  WF a -> List.length labs = alen (nth i (axes a) dax0) ->
+  WF (mkarr (set_nth i {| aname := aname (nth i (axes a) dax0); akind := k; alab := labs; aattrs := aattrs (nth i (axes a) dax0);
+                          amem := amem (nth i (axes a) dax0) |} (axes a)) (vals a) (attrs a)).
+Proof.
+  intros [[Hs Hd] Hn] Hl. split; [split; simpl; [|exact Hd]|].
+  - rewrite <- Hs. rewrite map_set_nth. unfold alen at 1; simpl. rewrite Hl. apply set_nth_alen_self.
+  - unfold dims in *; simpl. rewrite dims_set_same_name; [exact Hn | reflexivity].
+Qed.
+
 Lemma map_combine_fst_names (axs : list axis) ns :
   List.length ns = List.length axs -> map aname (map (fun p => with_name (fst p) (snd p)) (combine axs ns)) = ns.
 Proof.
